@@ -65,6 +65,7 @@ func ruleMemo(c *core.Ctx) {
 			return o
 		})
 		key := sc.name
+		noteRuns(c, runs)
 		if !complete || len(runs) != 1 {
 			c.Undecided("A-MEMO", fn, key, "", fmt.Sprintf("%d worlds, complete=%v", len(runs), complete))
 			continue
